@@ -1109,6 +1109,21 @@ def child_comb_exact(inp):
                     "edge": edge, "nontrivial": True, "sig": f"combentry:{path}:{n}:{k}:{ukind}:{weights[seq] > 1e-12}",
                     "oracle": {"ok": dev <= 1e-9 * scale,
                                "detail": f"tensor[:, {seq}] of a run with exact segments ({meta}) vs Kraus-form evolution with the probe operators: {dev:.2e}"}})
+    # (a') the diagnostics of a ProcessTensor are read-only: calling them between two predictions changes neither the stored
+    #      tensor nor the prediction (one object serves diagnostics and predictions)
+    snap = np.array(pt.tensor, copy=True)
+    called = []
+    for meth in ("quantum_mutual_information", "to_linear_map_matrix"):
+        if hasattr(pt, meth):
+            try:
+                getattr(pt, meth)()
+                called.append(meth)
+            except Exception as e:  # noqa: BLE001
+                called.append(f"{meth}:{type(e).__name__}")
+    dchg = float(np.abs(np.asarray(pt.tensor) - snap).max())
+    out.append({"req": None, "impl": None, "kind": "comb-exact-readonly", "sig": f"combro:{path}:{k}",
+                "oracle": {"ok": dchg == 0.0,
+                           "detail": f"ProcessTensor.tensor after calling {called}: changed by {dchg:.3e} ({meta})"}})
     # (b) held-out completely positive maps
     for _q in range(3):
         names, kls = [], []
